@@ -221,7 +221,8 @@ def mutesSpec (σ : Inst) (now : Int) (lsTok : String) (l : LabelSet) (v by_ : S
 def stepCommon (cfg : Cfg) (σ : Inst) (op obs : List String) : Option (Inst × List Msg) :=
   match op, obs with
   | [kind, now, id, a, e, c, sets, big], [res, rid, bcs, ver, dmp] =>
-    if kind ≠ "set" ∧ kind ≠ "post" then none else
+    -- `setq` = `set` whose argument is the object a lookup by id returned, edited by the caller (harness/silx `setq`)
+    if kind ≠ "set" ∧ kind ≠ "post" ∧ kind ≠ "setq" then none else
     let now := toInt! now
     let inp := parseIn id a e c sets
     let cur := parseMeshes dmp
@@ -345,6 +346,14 @@ def stepCommon (cfg : Cfg) (σ : Inst) (op obs : List String) : Option (Inst × 
           ++ acc) []
       ++ (if fresh.isEmpty ∧ nb ≠ "0" then [Msg.propfail "merge_idem_no_gossip" "regossiped-known" s!"nb={nb}"] else [])
       ++ (if toNat! nb > fresh.length then [Msg.propfail "merge_idem_no_gossip" "too-many-broadcasts" s!"nb={nb} fresh={fresh.length}"] else [])
+      -- C09/C19 `merge_relays_accepted` on the implementation's own dumps: every record that changed the state
+      -- (the id now holds exactly that version and did not before: `accepted_iff_changed`) is handed back to the
+      -- gossip layer, a newer version of a known id as well as a new id; oversized messages are not relayed
+      ++ (let accepted := dec.filter fun e => find cur e.sil.id = some e ∧ find σ.impl e.sil.id ≠ some e
+          if ov ≠ "1" ∧ toNat! nb < accepted.length then
+            [Msg.propfail "merge_relays_accepted" "accepted-update-not-relayed"
+              s!"nb={nb} accepted={joinList "." (accepted.map (·.sil.id))} known-before={joinList "." ((accepted.filter fun e => (find σ.impl e.sil.id).isSome).map (·.sil.id))}"]
+          else [])
     let rev := dec.filterMap fun e =>
       match find σ.impl e.sil.id, find cur e.sil.id with
       | some p, some q => if getState p.sil now = .expired ∧ getState q.sil now ≠ .expired then some e.sil.id else none
